@@ -2,9 +2,11 @@ package main
 
 import (
 	"context"
+	"errors"
 	"fmt"
 	"strings"
 	"sync"
+	"sync/atomic"
 	"time"
 
 	bifrost_rpc "github.com/aperturerobotics/bifrost/rpc"
@@ -34,6 +36,22 @@ type tapBus struct {
 	ready   chan struct{}
 	dir     directive.Directive
 	logErrs bool // log the error list of idle callbacks too (`I<b>:<errs>`)
+	// resource accounting (c36d.go): how often the Reference AddDirective returned was released and
+	// how often the release function of the idle callback was called
+	refReleased, idleReleased int32
+}
+
+// countRef is the directive.Reference a tapBus hands out: it counts Release calls.
+type countRef struct {
+	t     *tapBus
+	inner directive.Reference
+}
+
+func (r countRef) Release() {
+	atomic.AddInt32(&r.t.refReleased, 1)
+	if r.inner != nil {
+		r.inner.Release()
+	}
 }
 
 // reset makes the tap a fresh scripted bus again (the server object behind it is kept).
@@ -66,6 +84,7 @@ func (i *tapInst) AddIdleCallback(cb directive.IdleCallback) func() {
 	default:
 	}
 	return func() {
+		atomic.AddInt32(&t.idleReleased, 1)
 		if rel != nil {
 			rel()
 		}
@@ -148,14 +167,14 @@ func (t *tapBus) AddDirective(dir directive.Directive, h directive.ReferenceHand
 	t.dir = dir
 	t.inst = &tapInst{t: t}
 	if t.Bus == nil {
-		return t.inst, fakeRef{}, nil
+		return t.inst, countRef{t: t}, nil
 	}
 	di, ref, err := t.Bus.AddDirective(dir, tapHandler{t})
 	if err != nil {
 		return nil, nil, err
 	}
 	t.inst.Instance = di
-	return t.inst, ref, nil
+	return t.inst, countRef{t: t, inner: ref}, nil
 }
 
 // lookupStream is the server side of the LookupRpcService stream: it records what is sent.
@@ -164,7 +183,12 @@ type lookupStream struct {
 	mtx  sync.Mutex
 	sent []string
 	gate chan struct{} // when non-nil every Send waits for one token (a slow consumer)
+	// failAt: when non-nil, the Send of message number *failAt (0-based) and every later one fails
+	failAt *int
+	nSend  int
 }
+
+var errSendFail = errors.New("verif-send-failed")
 
 func (s *lookupStream) Context() context.Context { return s.ctx }
 func (s *lookupStream) Send(m *bifrost_rpc_access.LookupRpcServiceResponse) error {
@@ -177,6 +201,11 @@ func (s *lookupStream) Send(m *bifrost_rpc_access.LookupRpcServiceResponse) erro
 	}
 	// the message is read when the consumer takes it, as a real transport would marshal it
 	s.mtx.Lock()
+	if s.failAt != nil && s.nSend >= *s.failAt {
+		s.mtx.Unlock()
+		return errSendFail
+	}
+	s.nSend++
 	s.sent = append(s.sent, bit(m.GetIdle())+bit(m.GetExists())+bit(m.GetRemoved()))
 	s.mtx.Unlock()
 	return nil
@@ -326,6 +355,8 @@ type scriptCtrl struct {
 	svc string
 	hch chan directive.ResolverHandler
 	srv chan string // the server ID of the directive the bus handed over
+	// fail (optional): an error sent here makes the running resolver return it
+	fail chan error
 }
 
 var busHistoryN int
@@ -348,8 +379,12 @@ func (c *scriptCtrl) HandleDirective(ctx context.Context, di directive.Instance)
 		case <-rctx.Done():
 			return nil
 		}
-		<-rctx.Done()
-		return nil
+		select {
+		case <-rctx.Done():
+			return nil
+		case err := <-c.fail:
+			return err
+		}
 	}), nil)
 }
 
@@ -460,7 +495,7 @@ func (e *engine) c36Compare(evs, sent []string, ret, branch string, wellFormed b
 }
 
 func (e *engine) runC36() {
-	e.rep.Rule = "LookupRpcService driven (a) by scripted bus callbacks: every history of length ≤ 4 over {add 1, add 2, remove 1, remove 2, idle, busy} plus random histories up to length 14 incl. foreign values, duplicate IDs and removals of unknown IDs, and add/remove/idle alternations against a slow consumer (Send gated by tokens, so the sender holds a batch while callbacks keep queueing); (b) on the real controller bus with a scripted resolver (add / remove / MarkIdle), the tap recording the callbacks the bus delivers; the stream is compared message by message with the model run on the delivered history; component IDs: requests over {\"\",a,svc/x, 200-byte, non-UTF-8} round-tripped and random / mutated base58 text decoded; distinct = distinct op line"
+	e.rep.Rule = "LookupRpcService driven (a) by scripted bus callbacks: every history of length ≤ 4 over {add 1, add 2, remove 1, remove 2, idle, busy} plus random histories up to length 14 incl. foreign values, duplicate IDs and removals of unknown IDs, and add/remove/idle alternations against a slow consumer (Send gated by tokens, so the sender holds a batch while callbacks keep queueing); (b) on the real controller bus with a scripted resolver (add / remove / MarkIdle), the tap recording the callbacks the bus delivers; the stream is compared message by message with the model run on the delivered history; ends of the call other than dispose: 7 histories × (context cancelled after every k) × (Send failing at every k) + random (cancel, fail) pairs, the directive reference and the idle-callback release counted (exactly once each); CallRpcService with waitOne=false and waitOne=true (registered pairs, refusals before the lookup, a provider registered after the call reached the bus); the production consumer rpc/access LookupRpcServiceResolver + ProxyInvoker connected to the real server over an srpc pipe on the real bus: add / remove / idle / busy histories, the remote ending the stream (its resolver fails) and the lookup starting over, calls through the proxy value with the directive's service ID and another one, with a counted and with a nil client release function; component IDs: requests over {\"\",a,svc/x, 200-byte, non-UTF-8} round-tripped and random / mutated base58 text decoded; distinct = distinct op line"
 	e.rep.Require("scripted.exhaustive", "scripted.random", "scripted.illformed", "scripted.slow-consumer", "bus", "cid.roundtrip", "cid.empty", "cid.decode.ok", "cid.decode.err")
 	// (a) exhaustive short histories: well-formed ones get the monitor
 	alpha := []string{"a1", "a2", "r1", "r2", "i1", "i0"}
@@ -605,7 +640,9 @@ func (e *engine) runC36() {
 	e.runC36Errors()
 	e.runC36ReqDir()
 	e.runC36Call()
-	e.runC36Pure() // history independence + separator-ambiguity pairs of the pure functions (c36c.go)
+	e.runC36Pure()     // history independence + separator-ambiguity pairs of the pure functions (c36c.go)
+	e.runC36Ends()     // cancelled context / failing Send, reference accounting (c36d.go)
+	e.runC36Resolver() // the production consumer and component-ID encoder (c36d.go)
 
 	// component IDs
 	vals := []string{"", "a", "svc/x", strings.Repeat("s", 200), "\xff\x00", "srv-1"}
